@@ -22,6 +22,11 @@ def check(ctx):
         ctx.extra_cov['lookup_tables'] = {k: v[1] for k, v in lu.sizes.items() if isinstance(v, tuple)}
     except Lost as e:
         ctx.undecided.append('lookups reason=lost anchor: %s' % e)
+    from contracts import versions
+    try:
+        ctx.verus_unit(versions.make_unit(ctx.scratch.dir), finder=None)
+    except Lost as e:
+        ctx.undecided.append('versions reason=lost anchor: %s' % e)
     from contracts import hashfn
     ctx.verus_unit(hashfn.UNIT, finder=dict(module='lib', check='hashfunc', alphabet=b'aB-', maxlen=7))
     ctx.native_ground('lib', 'tables_wf', 'complete',
@@ -47,7 +52,7 @@ def check(ctx):
                     desc='hashfunc never panics (all tail branches: >=4, 2-3, 1 bytes) and g == f1^f2') for n in (0, 1, 2, 3, 4, 5, 6, 7, 11, 16)]
     ctx.kani('autosar-data-specification', kspecs)
     return ctx.finish(
-        explanation='(a\') Verus proves on the real text of 24 lookup/listing functions of lib.rs (find_sub_element(_internal), get_sub_element_spec/_version_mask/_multiplicity, find_attribute_spec, reference_dest_value, verify_reference_dest, is_ref, is_named, short_name_version_mask, accessors, both listing iterators) for every element type, name, version mask and index list and for any table contents satisfying wf_tables(): a successful lookup returns a listed entry with that name, a mask meeting the version and exactly its type; None means no index list resolves to such an entry (lemma_listed_is_found states the property sentence); every yielded listing item is a resolvable entry; no out-of-bounds access; recursion terminates. wf_tables() itself is a closed fact evaluated on the real statics (ground lib tables_wf). hashfunc is panic-free and terminating for every input. (a) Verus proves on the real text of the three from_bytes functions, for every byte string, any hash triple and any table contents: no panic, Ok(i) => i < N and table[i] == input (so every non-member fails and the transmute is in range). (b) the finite half (every member is found at its own index; every listed sub-element/attribute is found in every version of its mask; DEST values) is a conjunction of closed instances, each evaluated on the real compiled code (backend native-eval, exhaustive). Versions: loop-free Kani harnesses over all u32 / all declared versions (complete).',
+        explanation='(a\') Verus proves on the real text of 24 lookup/listing functions of lib.rs (find_sub_element(_internal), get_sub_element_spec/_version_mask/_multiplicity, find_attribute_spec, reference_dest_value, verify_reference_dest, is_ref, is_named, short_name_version_mask, accessors, both listing iterators) for every element type, name, version mask and index list and for any table contents satisfying wf_tables(): a successful lookup returns a listed entry with that name, a mask meeting the version and exactly its type; None means no index list resolves to such an entry (lemma_listed_is_found states the property sentence); every yielded listing item is a resolvable entry; no out-of-bounds access; recursion terminates. wf_tables() itself is a closed fact evaluated on the real statics (ground lib tables_wf). hashfunc is panic-free and terminating for every input. AutosarVersion::from_str(s) == Ok(v) implies that s is byte for byte filename(v), for texts of every length (unit versions). (a) Verus proves on the real text of the three from_bytes functions, for every byte string, any hash triple and any table contents: no panic, Ok(i) => i < N and table[i] == input (so every non-member fails and the transmute is in range). (b) the finite half (every member is found at its own index; every listed sub-element/attribute is found in every version of its mask; DEST values) is a conjunction of closed instances, each evaluated on the real compiled code (backend native-eval, exhaustive). Versions: loop-free Kani harnesses over all u32 / all declared versions (complete).',
         checker_cmd='verus generated/{names_attribute,names_enumitem,names_element,lookups,hashfn}.rs; vxnative ground lib tables_wf; vxnative ground {attributename,enumitem,elementname} names; vxnative ground lib lookups; cargo kani --harness version_* --harness attr_from_bytes_len* --harness hashfunc_len*',
         trusted_base=['Verus 0.2026.09.13 + Z3', 'Kani 0.68 + CBMC 6.11', 'rustc (native evaluation of closed instances)', 'rule R9 (DESIGN 3.3): DISPLACEMENTS/STRING_TABLE accesses abstracted with their declared lengths as preconditions; enum represented by its discriminant (side condition discriminants == 0..N-1 checked mechanically)',
                       'hashfunc has contract `true` in the from_bytes units (their postcondition holds for any hash); its own unit proves panic freedom and termination',
